@@ -31,6 +31,7 @@ bool step(Circuit &c, const CircuitSpec &s, int mode, Tape &t, Report &R, double
 }  // namespace
 
 bool prop(Tape &t, Report &R) {
+  HistoryScope hist(t, R);
   GenOpts o;
   o.maxCells = R.thorough() ? 40 : 20;
   o.zeroSizeMovable = true;
